@@ -126,7 +126,7 @@ impl Shim {
             c.to_string_lossy().into_owned()
         };
         let mut per_kind = Vec::new();
-        for k in 0..16 {
+        for k in 0..17 {
             // SAFETY: returns a static string or NULL.
             let p = unsafe { (self.kind)(k) };
             if p.is_null() {
